@@ -119,6 +119,10 @@ type Sched struct {
 	// ClockStep: how far a process's virtual clock advances per reading (default 100us);
 	// a large step models a slow machine / file system for the code's own deadlines
 	ClockStep time.Duration
+	// ClockAhead: the virtual clocks start this far after the virtual base date (the
+	// default base lies before every file time stamp; a large value makes every file
+	// look old to the code, as after a long pause of the processes involved)
+	ClockAhead time.Duration
 	// HookReads: ReadAt on table files is a hooked operation (fault-injection runs)
 	HookReads     bool
 	MaxSteps      int
@@ -383,7 +387,7 @@ func VirtualNow() (time.Time, bool) {
 		step = 100 * time.Microsecond
 	}
 	s.cur.TimeOff += step
-	return virtualBase.Add(s.cur.TimeOff), true
+	return virtualBase.Add(s.ClockAhead).Add(s.cur.TimeOff), true
 }
 
 func track(f *File) {
